@@ -2,6 +2,7 @@ package main
 
 import (
 	"go/parser"
+	"regexp"
 	"go/scanner"
 	"go/token"
 	"strconv"
@@ -56,7 +57,14 @@ type importSpec struct {
 	Path string
 }
 
+var pkgClauseRe = regexp.MustCompile(`(?m)^package [^\n/]*`)
+
 func parseImports(src []byte) ([]importSpec, error) {
+	// the package clause is not the import block's business (a File may be named after a
+	// keyword by its user): parse with a neutral one
+	if loc := pkgClauseRe.FindIndex(src); loc != nil {
+		src = append(append(append([]byte{}, src[:loc[0]]...), []byte("package p ")...), src[loc[1]:]...)
+	}
 	fset := token.NewFileSet()
 	file, err := parser.ParseFile(fset, "out.go", src, parser.ImportsOnly)
 	if err != nil {
